@@ -352,6 +352,14 @@ fn ere_invalid(s: &str) -> Option<&'static str> {
     }
 }
 
+fn date_invalid(s: &str) -> Option<&'static str> {
+    // only strings no date syntax could accept: containing the junk letters x / é next to nothing else useful
+    if s.contains('x') || s.contains('\u{e9}') {
+        return Some("not a date");
+    }
+    None
+}
+
 fn user_invalid(s: &str) -> Option<&'static str> {
     if s.is_empty() {
         return Some("empty name");
@@ -385,6 +393,11 @@ fn sweeps(t: Tier) -> Vec<Sweep> {
         Sweep { primary: "-user", prefix: vec![], alphabet: vec![], maxlen: 0, extra: vec!["", "root", "0", "54321", "zzunknownuser", "zz 1", "99999999999999999999", "-1", "\u{e9}"], invalid: user_invalid },
         Sweep { primary: "-group", prefix: vec![], alphabet: vec![], maxlen: 0, extra: vec!["", "root", "0", "54322", "zzunknowngroup", "99999999999999999999", "-1"], invalid: user_invalid },
     ];
+    // -newerXt DATE: pieces of the accepted date syntax, ASCII and non-ASCII digits, junk; judged for
+    // no-panic (every string) and for rejection only where a reading-independent predicate says invalid
+    for (p, n) in [("-newermt", q(5, 6)), ("-newerat", 3), ("-newerct", 3)] {
+        v.push(Sweep { primary: p, prefix: vec![], alphabet: vec!["jan 01", ", ", " ", "2", "0", "\u{662}", "12:00:00", "x", "\u{e9}"], maxlen: n, extra: vec!["", "jan 01, 2025", "jan 01, 2025 00:00:01", "feb 30, 2025", "jan 01, 0000", "zzz 99, 9999 99:99:99", ", \u{967}\u{966}\u{968}\u{96b}"], invalid: date_invalid });
+    }
     for p in ["-links", "-inum", "-uid", "-gid", "-mtime", "-atime", "-ctime", "-mmin", "-amin", "-cmin"] {
         v.push(Sweep { primary: p, prefix: vec![], alphabet: vec!["+", "-", "0", "1", "9", "x", " ", "\u{e9}"], maxlen: q(3, 4), extra: vec!["", "18446744073709551615", "18446744073709551616", "+9223372036854775808"], invalid: number_invalid });
     }
